@@ -2,4 +2,4 @@
 # tools/seedbatch.sh ID:k[:extra,extra] ... : run seedcheck for each, two at a time
 run() { IFS=: read id k extra <<< "$1"; /verif/tools/seedcheck.sh $id $k ${extra//,/ } > /tmp/sc${SEEDWAVE:-}_${id}_${k}.log 2>&1; }
 export -f run
-printf '%s\n' "$@" | xargs -P 3 -I{} bash -c 'run {}'
+printf '%s\n' "$@" | xargs -P ${SEEDPAR:-4} -I{} bash -c 'run {}'
